@@ -90,6 +90,7 @@ _leaf("fd_signature_scheme", ["SignatureScheme::hash_alg", "SignatureScheme::sig
 _leaf("fd_key_bits", "NamedGroup::key_bits", "every u16 value", "fd", True)
 _leaf("leaf_ch_accessors_tls", "ClientHello trait on TlsClientHelloContents (+ new, get_version)", "random <= 36 bytes (incl. != 32), <= 2 ciphers, 1 compression")
 _leaf("leaf_ch_accessors_dtls", "ClientHello trait on DTLSClientHello", "random <= 36 bytes, <= 2 ciphers, 1 compression")
+_leaf("mod_ch_cipher_suites", ["ClientHello::cipher_suites (TLS, DTLS)", "TlsClientHelloContents::get_ciphers", "TlsServerHelloContents::get_cipher"], "2 ciphers, every id pair; get_ciphersuite replaced by a contract stub", "mod")
 _leaf("fd_server_hello_ctor", ["TlsServerHelloContents::new", "TlsServerHelloContents::get_version"], "all argument values", "fd", True)
 _leaf("fd_from_id", ["TlsCipherSuite::from_id", "TryFrom<u16>", "TryFrom<TlsCipherSuiteID>", "TlsCipherSuiteID::get_ciphersuite"], "every u16 id", "fd", True)
 _leaf("fd_ciphers_len", "CIPHERS", "no input", "fd", True)
@@ -98,6 +99,18 @@ _leaf("fd_route_try_from_id", "TryFrom<TlsCipherSuiteID> for &TlsCipherSuite", "
 _leaf("fd_route_get_ciphersuite", "TlsCipherSuiteID::get_ciphersuite", "every u16 id", "fd", True)
 _leaf("fd_cipher_sizes", ["TlsCipherSuite::enc_key_size", "mac_length", "enc_block_size"], "every registry entry (symbolic id)", "fd", True)
 _leaf("fd_c12_rows", "CIPHERS (every row, all 10 columns)", "every u16 id (symbolic): listed ids carry the listed row, unlisted ids are absent", "fd", True)
+for _n, _f in [("raw_record", "parse_tls_raw_record"), ("dh_params", "parse_dh_params"), ("ecdh_params", "parse_ecdh_params"),
+               ("digitally_signed", "parse_digitally_signed"), ("ext_unknown", "parse_tls_extension_unknown"), ("dtls_header", "parse_dtls_record_header")]:
+    _leaf("rel_local_" + _n, _f + " on b and b ++ x", "b ++ x <= 8..16 bytes, both lengths symbolic", "rel")
+_SER = ["leaf_ser_finished", "leaf_ser_cke_unknown", "leaf_ser_cke_dh", "leaf_ser_cke_ecdh", "fd_ser_hello_request", "fd_ser_ccs",
+        "leaf_ser_client_hello_min", "leaf_ser_client_hello_full", "leaf_ser_server_hello_min", "leaf_ser_server_hello_full",
+        "leaf_ser_server_hello_d18_min", "leaf_ser_server_hello_d18_full", "leaf_ser_ext_sni", "leaf_ser_ext_max_fragment_length",
+        "leaf_ser_length_u24", "leaf_ser_length_u16"] + ["fd_ser_unsupported_%d" % k for k in (0, 1, 2, 3, 5, 6, 8, 9, 10)]
+for _h in _SER:
+    _leaf(_h, {"leaf_ser_length_u24": "length_be_u24", "leaf_ser_length_u16": "length_be_u16"}.get(_h, "Serialize::serialize / gen_tls_* (" + _h.split("_ser_")[1] + ")"),
+          {"leaf_ser_length_u24": "body length 0..70000 symbolic (content constant)", "leaf_ser_length_u16": "body length 0..65535 symbolic (content constant)"}.get(
+              _h, "field contents symbolic; list/opaque lengths tiny and concrete (min: none, full: 1-byte session id, 1-byte extension block, 2 ciphers, 1 compression; opaque bodies <= 2 bytes)"),
+          "fd" if _h.startswith("fd_") else "leaf", _h.startswith("fd_"))
 for _k in range(5):
     HARNESS["fd_states_cells_%d" % _k] = dict(kind="fd", proved=True, fns=["tls_state_transition", "tls_state_transition_handshake"],
         bound="states %d..%d x 22 message shapes x both directions x all 256x256 alert bytes; payload contents minimal (<= 2 bytes) - content-independence is the Verus unit's job" % (5 * _k, 5 * _k + 4))
@@ -116,7 +129,7 @@ PROPS = {
         level_note="Trusted: Verus+Z3; the hand-written table oracle (contracts/states_table.rs); extraction rewrites R0 (comments/attrs), R1 (&Path(..) patterns -> Path(..), default binding modes), R3 (Structural on PartialEq+Eq derives), R5 (newtype_enum! -> associated consts), R6 (named return) - logged as diffs in the evidence; fidelity of the extract is cross-checked in the thorough tier by Kani harnesses fd_states_cells_* on the real compiled function (all 25x22x2 cells, all alert bytes).",
         technique="contract-based deductive verification: Verus postcondition on mechanically extracted code; Kani full-domain harness on the compiled code for witnesses",
         verus=["states"],
-        kani=[dict(quick=[], thorough=["fd_states_cells_%d" % k for k in range(5)], paired=["fd_states_cells_%d" % k for k in range(5)], timeout=300)],
+        kani=[dict(quick=[], thorough=["fd_states_cells_%d" % k for k in range(5)], paired=["fd_states_cells_%d" % k for k in range(5)], timeout=900)],
         paired={"states": ["fd_states_cells_%d" % k for k in range(5)]},
         explanation="tls_state_transition and tls_state_transition_handshake are sliced out of /repo/src/tls_states.rs together with every message type and proved (Verus) equal to a transition table written from the property, for all states, directions and message contents; history clauses follow from recursive lemmas over the table",
         trusted=["the transition table in /verif/verus/units/states.py (oracle transcribed by hand from the property statement; sanity lemmas about it are proved)"],
@@ -127,7 +140,7 @@ PROPS = {
         level_note="Trusted: Verus+Z3; vstd Vec specs (clear, extend_from_slice, len); assume_specification for derive(Default) (discharged on the real type by Kani harness fd_defrag_default); parse_tls_record_with_header as external_body with an uninterpreted spec (= 'a deterministic function of payload and header'); rewrites R0, R2 (guard on ErrorKind turned into the equivalent pattern), R3, R5, R6, one #[verifier::truncate] attribute on the `as u16` cast (value of the truncating cast left abstract), one spliced proof hint. No Kani pairing of the Ok paths: CBMC does not finish on Vec<TlsMessage> (measured: 400 s timeout with 1-byte fragments); a normal-build history runner in /verif/replay is the witness finder for failed obligations.",
         technique="contract-based deductive verification: Verus step contract + history lemmas on mechanically extracted code",
         verus=["defrag"],
-        kani=[dict(quick=["fd_defrag_default"], timeout=120)],
+        kani=[dict(quick=["fd_defrag_default"], timeout=600)],
         witness_search={"defrag": {"defrag_search": True, "depth": 3}},
         explanation="see level_text",
         trusted=["spec_prwh: the one-shot payload parser is abstract in this unit; its own contract is C03's business"],
@@ -137,7 +150,7 @@ PROPS = {
         level_text="Dispatch tables, GREASE/Unknown preservation, exact consumption, 'length beyond the block never yields a value', agreement of the three dispatchers and tag == wire type: unbounded deductive proof (Verus) on the real dispatcher bodies for all 65536 types and all data lengths, content parsers abstract. Content parsers, tag-specific parsers and list parsers: contracts checked by Kani on the compiled code, complete in byte contents and in every u8/u16 parameter, bounded in input length (bounded model checking, not proof).",
         level_note="Trusted: nom shim contracts be_u16/length_data (assumed in Verus, checked by Kani shim_* harnesses on the real nom); each content parser is an uninterpreted function in Verus with the single assumed fact 'on success it returns its own variant', which is an obligation of that parser's Kani leaf harness; IANA code-point table transcribed by hand (verus/units/dispatch_ext.py TABLE); rewrites R0, R5, R6, R8 (From::from lifted to a free fn).",
         technique="contract-based deductive verification: Verus postconditions on extracted dispatchers + Kani contract harnesses per content parser",
-        verus=["dispatch_ext"],
+        verus=["dispatch_ext", "ext_lists"],
         kani=[dict(quick=["fd_ext_max_fragment_length", "fd_ext_heartbeat", "fd_ext_record_size_limit", "fd_ext_encrypt_then_mac", "fd_ext_extended_master_secret",
                           "fd_ext_post_handshake_auth", "fd_ext_npn", "leaf_ext_ec_point_formats", "leaf_ext_renegotiation_info", "leaf_ext_psk_modes", "leaf_ext_sct",
                           "leaf_ext_unknown", "leaf_ext_elliptic_curves", "leaf_named_groups", "leaf_ext_signature_algorithms", "leaf_ext_alpn", "leaf_ext_sni", "leaf_ext_esni",
@@ -145,7 +158,7 @@ PROPS = {
                           "leaf_ext_status_request", "leaf_ext_early_data", "leaf_ext_supported_versions", "leaf_ext_oid_filters", "shim_be", "shim_length_data"]
                          + ["rel_tag_rej_" + t for t in _TAGS]
                          + ["rel_tag_" + t for t in _TAGS if t not in ("sni", "elliptic_curves", "signature_algorithms", "supported_versions", "psk_key_exchange_modes")],
-                   thorough=["rel_tag_sni", "rel_tag_elliptic_curves", "rel_tag_signature_algorithms", "rel_tag_supported_versions", "rel_tag_psk_key_exchange_modes"], timeout=400, timeout_thorough=1500)],
+                   thorough=["rel_tag_sni", "rel_tag_elliptic_curves", "rel_tag_signature_algorithms", "rel_tag_supported_versions", "rel_tag_psk_key_exchange_modes"], timeout=900, timeout_thorough=2400)],
         witness_search={"dispatch_ext": {"ext_search": True}},
         explanation="see level_text",
     ),
@@ -155,7 +168,7 @@ PROPS = {
         level_note="Trusted: nom shim contracts for complete/many1 (Kani shim_* harnesses, bounded); 'fun_of(parse_x) is the function parse_x computes' for each abstract message parser (determinism of safe, state-free code) and 'remainder is never longer than the input' (checked as is_suffix in the Kani leaves); leaf contracts ccs_post/alert_post/appdata_post are assumed in Verus and are the assertions of fd_msg_ccs / fd_msg_alert / leaf_msg_appdata. One-step == two-step parsing is decided in C02 (plaintext glue), not here.",
         technique="contract-based deductive verification: Verus on the extracted container + Kani contract harnesses for the leaf message parsers",
         verus=["many", "plaintext"],
-        kani=[dict(quick=["fd_msg_ccs", "fd_msg_alert", "leaf_msg_appdata", "leaf_msg_heartbeat", "leaf_prwh_heartbeat", "leaf_prwh_appdata", "shim_complete", "shim_many1"], timeout=300)],
+        kani=[dict(quick=["fd_msg_ccs", "fd_msg_alert", "leaf_msg_appdata", "leaf_msg_heartbeat", "leaf_prwh_heartbeat", "leaf_prwh_appdata", "shim_complete", "shim_many1"], timeout=900)],
         paired={"many": ["leaf_prwh_heartbeat", "leaf_prwh_appdata"]},
         explanation="see level_text",
     ),
@@ -166,7 +179,7 @@ PROPS = {
         technique="contract-based deductive verification: Verus postconditions on the extracted framing functions; Kani full-domain harnesses on the compiled code",
         verus=["frame", "plaintext", "many"],
         kani=[dict(quick=["fd_record_header", "fd_raw_record_small", "fd_encrypted_small", "shim_take", "shim_be", "shim_map_parser", "shim_complete", "shim_many1", "leaf_prwh_heartbeat"],
-                   thorough=["fd_raw_record_full", "fd_encrypted_full"], timeout=300, timeout_thorough=1500)],
+                   thorough=["fd_raw_record_full", "fd_encrypted_full"], timeout=900, timeout_thorough=2400)],
         paired={"frame": ["fd_raw_record_small", "fd_encrypted_small"], "many": ["leaf_prwh_heartbeat", "leaf_prwh_appdata"], "plaintext": []},
         explanation="see level_text",
     ),
@@ -180,7 +193,7 @@ PROPS = {
                           "leaf_hs_newsessionticket", "leaf_hs_hello_retry_request", "leaf_hs_server_hello_msg", "leaf_hs_server_hello", "leaf_hs_certificatestatus",
                           "leaf_hs_next_protocol", "leaf_hs_certificate", "mod_client_hello", "leaf_hs_client_hello_sid33", "leaf_cipher_suites", "leaf_compressions",
                           "shim_be", "shim_take", "shim_length_data"],
-                   thorough=["leaf_hs_certificate_request", "mod_client_hello_long"], timeout=400, timeout_thorough=1500)],
+                   thorough=["leaf_hs_certificate_request", "mod_client_hello_long"], timeout=900, timeout_thorough=2400)],
         paired={"dispatch_hs": []},
         explanation="see level_text",
     ),
@@ -190,7 +203,7 @@ PROPS = {
         level_note="Trusted: nom shims (be_u8/16/24, take, map, map_parser, complete, many1); DTLS body parsers uninterpreted in Verus; R9 (closure signature + ensures), R10 (constructor eta-expanded into a closure with its trivial contract); ServerHello/Certificate/ServerDone/ClientKeyExchange bodies are the C04 parsers (checked there).",
         technique="contract-based deductive verification: Verus on extracted dispatcher/record glue + Kani full-domain header harness and leaf harnesses",
         verus=["dtls", "dtls_many"],
-        kani=[dict(quick=["fd_dtls_header", "fd_dtls_ccs_alert", "fd_dtls_is_fragment", "leaf_dtls_hvr", "leaf_dtls_fragment", "mod_dtls_client_hello", "shim_be", "shim_take", "shim_map_parser", "shim_many1"], timeout=400)],
+        kani=[dict(quick=["fd_dtls_header", "fd_dtls_ccs_alert", "fd_dtls_is_fragment", "leaf_dtls_hvr", "leaf_dtls_fragment", "mod_dtls_client_hello", "shim_be", "shim_take", "shim_map_parser", "shim_many1"], timeout=900)],
         explanation="see level_text",
     ),
     "C16": dict(
@@ -198,8 +211,9 @@ PROPS = {
         level_text="Unbounded deductive proof (Verus) that the real bodies of tls_parser_many and parse_dtls_plaintext_records are the explicit accumulate-while-Ok loop over the single-record parser (records in order, remainder at the first record that fails or is incomplete), that they fail iff the first record does not parse (lemma, for a record parser that consumes input on success and never answers Failure), and that tls_parser(i) == parse_tls_plaintext(i). Relative to the nom many1/complete contracts, which Kani checks on the real nom (bounded).",
         level_note="Trusted: nom shim contracts complete/many1 (assumed in Verus; Kani shim_complete / shim_many1 on the real nom with a cheap element type, input <= 4 bytes - bounded, NOT proved); 'fun_of(parse_tls_plaintext) is the function it computes' (determinism of safe state-free code); single-record parsers abstract here (their contracts: C02, C10).",
         technique="contract-based deductive verification: Verus postconditions on extracted one-line bodies over relational combinator contracts",
-        verus=["many", "dtls_many"],
-        kani=[dict(quick=["shim_complete", "shim_many1"], timeout=300)],
+        verus=["many", "dtls_many", "plaintext", "dtls"],
+        kani=[dict(quick=["shim_complete", "shim_many1"], timeout=900)],
+        standins=[dict(name="multi_record_vs_explicit_loop", kind="bounded-execution", bound="all concatenations of <= 3 pieces from 13 TLS / 7 DTLS records and tails (2540 buffers)", payload={"multi_record_check": 1})],
         explanation="see level_text",
     ),
     "C13": dict(
@@ -207,7 +221,7 @@ PROPS = {
         level_text="Kani contract harnesses on the compiled derive-generated parsers (ServerDHParams, ECParameters both forms, ServerECDHParams, ECPoint, both DigitallySigned forms, parse_content_and_signature for both flag values) against index-based reference decoders: exact field values by pointer identity, exact consumption, all 256 curve types, all algorithm bytes; complete in byte contents, BOUNDED in input length (8..10 bytes; larger length fields land in the Incomplete class).",
         level_note="Bounded model checking, not proof: the parsers are generated by nom-derive macros and cannot be sliced into Verus. Trusted: reference decoders in /verif/kani/pub_c13_kx.rs written from RFC 4492/5246.",
         technique="contract harnesses (pre/post predicates) on the real code, Kani/CBMC, bounded length",
-        kani=[dict(quick=["leaf_dh_params", "leaf_digitally_signed", "leaf_ec_parameters", "leaf_ecdh_params", "leaf_content_and_signature"], timeout=400)],
+        kani=[dict(quick=["leaf_dh_params", "leaf_digitally_signed", "leaf_ec_parameters", "leaf_ecdh_params", "leaf_content_and_signature"], timeout=900)],
         explanation="see level_text",
     ),
     "C14": dict(
@@ -215,7 +229,7 @@ PROPS = {
         level_text="Kani contract harnesses: single SCT entry (u16 prefix, version, 32-byte log id by pointer, be64 timestamp over the full range, u16 extensions, hash/signature bytes, u16 signature, exact consumption; a field cut off by the entry length never yields an SCT) on inputs <= 52 bytes; list framing (u16 total, confinement, entry longer than the list / list longer than the input never yields an SCT) on short inputs. Bounded in input length; the n-entry in-order clause rests on the many0 shim contract (Kani shim_many0).",
         level_note="Bounded model checking, not proof. Lists with >= 1 well-formed SCT (>= 49 bytes each) are beyond what CBMC finishes for the list parser; in-order decoding of n entries follows from the single-entry contract + nom many0/map_parser contracts (shim harnesses), not from a run.",
         technique="contract harnesses on the real code, Kani/CBMC, bounded length",
-        kani=[dict(quick=["leaf_sct_entry", "leaf_sct_list_tiny", "shim_many0", "shim_map_parser", "shim_length_data"], thorough=["leaf_sct_list_short"], timeout=400, timeout_thorough=1500)],
+        kani=[dict(quick=["leaf_sct_entry", "leaf_sct_list_tiny", "shim_many0", "shim_map_parser", "shim_length_data"], thorough=["leaf_sct_list_short"], timeout=900, timeout_thorough=2400)],
         explanation="see level_text",
     ),
     "C15": dict(
@@ -223,7 +237,7 @@ PROPS = {
         level_text="Kani contract harnesses on the ClientHello trait (TLS and DTLS impls), constructors and getters: every accessor returns the structure's own field (pointer identity for slices), rand_time() == be32(first four random bytes) and rand_bytes() == the rest for every random of length 4..36 (incl. 32), new()/get_version() store and return their arguments. Full domain in every integer; bounded in list length (<= 2 ciphers). cipher_suites()/get_ciphers()/get_cipher() are compositions of the accessors with from_id, which C12 proves over all ids.",
         level_note="Bounded in cipher-list length; registry mapping of cipher_suites() rests on fd_from_id (C12).",
         technique="contract harnesses on the real code, Kani/CBMC",
-        kani=[dict(quick=["leaf_ch_accessors_tls", "leaf_ch_accessors_dtls", "fd_server_hello_ctor", "fd_from_id"], timeout=400)],
+        kani=[dict(quick=["leaf_ch_accessors_tls", "leaf_ch_accessors_dtls", "fd_server_hello_ctor", "mod_ch_cipher_suites", "fd_route_get_ciphersuite", "fd_from_id"], timeout=900)],
         explanation="see level_text",
     ),
     "C17": dict(
@@ -232,7 +246,7 @@ PROPS = {
         level_note="Trusted: oracles/iana_registries.py (hand transcription). The name/format stand-in executes format!() on the real crate for every value (18 x <= 65536) in a normal build; it is exhaustive but not deductive.",
         technique="full-domain Kani harnesses (complete proofs); exhaustive execution stand-in for formatted text",
         generators=["gen_c17.py"],
-        kani=[dict(quick=["fd_c17_consts", "fd_conversions", "fd_signature_scheme", "fd_key_bits"], timeout=300)],
+        kani=[dict(quick=["fd_c17_consts", "fd_conversions", "fd_signature_scheme", "fd_key_bits"], timeout=900)],
         standins=[dict(name="registry_names", kind="exhaustive-execution", bound="every value of every printing registry newtype (16 types x 256 or 65536 values)", payload={"names_check": 1})],
         explanation="see level_text",
     ),
@@ -242,8 +256,54 @@ PROPS = {
         level_note="Trusted: oracles/ciphersuites.snapshot (copy of the txt at the pinned commit); the generator's token rules. Name text in the row assertions is probed (length + 2 characters); full name equality is part of the by-name stand-in.",
         technique="generated full-domain Kani harnesses; exhaustive execution stand-in for by-name lookup",
         generators=["gen_c12.py"],
-        kani=[dict(quick=["fd_from_id", "fd_route_try_from_u16", "fd_route_try_from_id", "fd_route_get_ciphersuite", "fd_ciphers_len", "fd_cipher_sizes", "fd_c12_rows"], timeout=400)],
+        kani=[dict(quick=["fd_from_id", "fd_route_try_from_u16", "fd_route_try_from_id", "fd_route_get_ciphersuite", "fd_ciphers_len", "fd_cipher_sizes", "fd_c12_rows"], timeout=900)],
         standins=[dict(name="cipher_by_name", kind="bounded-execution", bound="352 listed names + every proper prefix, 4 suffixes, case/space changes and 10 token swaps each (~15.7k strings)", payload={"cipher_names_check": 1})],
+        explanation="see level_text",
+    ),
+    "C06": dict(
+        level="model_checking",
+        level_text="Locality: unbounded Verus lemmas derived from the proved contracts of the real functions - raw/encrypted records (lemma_framing_local), plaintext records, handshake messages, single extensions (all three dispatchers), DTLS handshake messages and DTLS records: a success on b is the same success on b ++ x with the remainder extended by x, and the outcome class is stable once the declared length is present. Leaf self-delimiting parsers (DH, ECDH, digitally-signed, extension framing, DTLS header, raw record) additionally by Kani relational harnesses on the compiled code (bounded length). Zero-copy/aliasing: every Kani leaf contract states each returned slice as pointer-identical to a sub-range of the input inside the structure's declared length and the remainder as the exact suffix (these conjuncts are the ones run here), so nothing is copied and nothing beyond the declared length is referenced.",
+        level_note="NOT decided: aliasing of TlsRecordsParser results (fast path / nocopy alias the caller's record, defragmented results alias the internal buffer) - Verus slices carry no addresses and CBMC does not finish on the defragmenter (measured); SCT / SCT-list locality beyond the leaf contract (52-byte inputs twice exceed the budget). PskExchangeModes is Vec<u8> by design (exempt). forbid(unsafe_code) (checked by rustc) rules out a borrowed result being a hidden copy with a forged lifetime.",
+        technique="contract-based deductive verification: Verus corollary lemmas over proved contracts + Kani relational and pointer-range contract harnesses",
+        verus=["frame", "plaintext", "dispatch_hs", "dispatch_ext", "dtls"],
+        kani=[dict(quick=["rel_local_raw_record", "rel_local_dh_params", "rel_local_ecdh_params", "rel_local_digitally_signed", "rel_local_ext_unknown", "rel_local_dtls_header",
+                          "fd_raw_record_small", "fd_encrypted_small", "leaf_msg_heartbeat", "leaf_msg_appdata", "leaf_hs_certificate", "leaf_hs_certificatestatus", "leaf_ext_sni",
+                          "leaf_ext_alpn", "leaf_ext_unknown", "leaf_dh_params", "leaf_ec_parameters", "leaf_digitally_signed", "leaf_sct_entry", "leaf_dtls_hvr", "leaf_dtls_fragment"],
+                   timeout=900)],
+        explanation="see level_text",
+    ),
+    "C11": dict(
+        level="model_checking",
+        level_text="For each enumerated code point the property lists, the hosting function's contract contains the conjunct 'field == the raw integer at its offset' and the harness leaves that byte/word fully symbolic and unconstrained, so the conjunct is decided for all 256 / 65536 values: record type and version (fd_record_header, Verus frame), alert level/description (fd_msg_alert), heartbeat type, ClientHello/ServerHello versions, cipher-suite and compression ids, extension type (Verus dispatch_ext: Unknown(type, data) for every unrecognised type; leaf_ext_unknown), named groups, signature/hash algorithms, SNI name type, certificate-status type, PSK modes, EC point formats, CT version, key-update value, DTLS header fields. Complete in the field value; bounded in the length of the surrounding structure (except the Verus units, unbounded).",
+        level_note="Certificate types of CertificateRequest are hosted by leaf_hs_certificate_request, which only runs in the thorough tier (768 s). No harness assumes anything about a listed field (assumption scan: vassume! is only applied to lengths/selectors).",
+        technique="contract conjuncts over fully symbolic enumerated fields: Kani harnesses + Verus postconditions",
+        verus=["frame", "dispatch_ext"],
+        kani=[dict(quick=["fd_record_header", "fd_raw_record_small", "fd_encrypted_small", "fd_msg_alert", "leaf_msg_heartbeat", "mod_client_hello", "leaf_cipher_suites", "leaf_compressions",
+                          "leaf_hs_server_hello_msg", "leaf_hs_hello_retry_request", "leaf_ext_unknown", "leaf_named_groups", "leaf_ext_elliptic_curves", "leaf_ext_signature_algorithms",
+                          "leaf_digitally_signed", "leaf_ext_sni", "leaf_ext_status_request", "leaf_hs_certificatestatus", "leaf_ext_psk_modes", "leaf_ext_ec_point_formats",
+                          "leaf_sct_entry", "fd_hs_key_update", "leaf_ec_parameters", "fd_dtls_header", "leaf_ext_supported_versions"],
+                   thorough=["leaf_hs_certificate_request"], timeout=900, timeout_thorough=2400)],
+        explanation="see level_text",
+    ),
+    "C01": dict(
+        level="model_checking",
+        level_text="'f(b) returns' = every compiler-inserted check (slice bounds, arithmetic overflow, unwrap/expect, debug_assert, unreachable) reachable from the function is discharged. Verus discharges them for all inputs on the extracted bodies (record framing, plaintext glue, handshake / extension / DTLS dispatchers, record-payload containers, multi-record parsers) and - with NO precondition on the object state, hence for every finite call sequence - on all four TlsRecordsParser methods, including the 10 MiB buffer bound. Kani discharges them on the compiled code (crate + nom + core, overflow checks and debug assertions on) for every body/content/leaf parser, with each manual index/subtraction guard site driven by its numeric parameter over the full usize/u16 domain (len-4, ext_len-1, len%2, len>i.len(), chunk[1], take(32)->[u8;32] expect, heartbeat len<3); bounded in input length.",
+        level_note="NOT decided: the heap-use bound (neither verifier has a resource model; only the defragmenter's buffer cap is proved); Debug/Display of structured values (core::fmt is beyond CBMC's budget; tls_debug.rs has no indexing and one multiplication dh_g.len()*8 bounded by the parser's u16 length; registry newtypes' Display/Debug run for every value in the C17 stand-in); termination of nom's many0/many1 loops beyond the stated input bounds (their progress guard is in nom's source; the shim harnesses exercise it).",
+        technique="contract-based deductive verification (Verus, unbounded) + Kani panic-freedom obligations on the compiled code (bounded length)",
+        verus=["defrag", "frame", "plaintext", "many", "dispatch_hs", "dispatch_ext", "ext_lists", "dtls", "dtls_many"],
+        kani=[dict(quick=["leaf_cipher_suites", "leaf_compressions", "leaf_tls_versions", "leaf_named_groups", "leaf_hs_newsessionticket", "leaf_ext_status_request", "leaf_ext_supported_versions",
+                          "leaf_sct_entry", "leaf_msg_heartbeat", "leaf_prwh_heartbeat", "leaf_prwh_appdata", "fd_raw_record_small", "mod_client_hello", "mod_dtls_client_hello",
+                          "leaf_hs_certificate", "leaf_ext_sni", "leaf_ec_parameters", "fd_dtls_header", "fd_defrag_default"],
+                   thorough=["leaf_hs_certificate_request", "leaf_sct_list_short", "mod_client_hello_long"], timeout=900, timeout_thorough=2400)],
+        witness_search={"defrag": {"defrag_search": True, "depth": 3}},
+        explanation="see level_text",
+    ),
+    "C09": dict(
+        level="model_checking",
+        level_text="Kani contract harnesses (crate built with --features serialize): the bytes emitted for ClientHello, ServerHello (TLS 1.0-1.2 / SSLv3 / draft-18 forms), ClientKeyExchange (opaque, DH, ECDH), Finished, HelloRequest, the ChangeCipherSpec message, SNI and max-fragment-length extensions equal an independent reference encoder's bytes (so every emitted length field equals the byte length of what it prefixes), Finished / CCS are parsed back by the body parsers, every unsupported handshake variant / message kind / extension yields GenError::NotYetImplemented. The private length helpers length_be_u16 / length_be_u24 are verified for EVERY body length up to 65535 / 70000 bytes (across the 16-bit boundary). Contents are fully symbolic; list lengths are tiny and concrete (bounded). Round trip through the parse DISPATCHERS follows by composition with the Verus units of C04/C05 (same wire format), not from a run.",
+        level_note="NOT decided: TlsPlaintext record serialization and the supported_groups extension (cookie_factory `all(iter.map(..))` exhausts CBMC memory, measured), hellos with more than 2 ciphers / 1 compression / longer session ids or extension blocks (their length fields are produced by the same helpers and `len() as u8/u16` casts, which the harness pins only for the tiny shapes). Trusted: the reference encoder in /verif/kani/ser_c09.rs (hand-written from RFC 5246 7.4 / RFC 6066).",
+        technique="contract harnesses on the real serializer vs an independent reference encoder, Kani/CBMC",
+        kani=[dict(quick=_SER, features=["serialize"], target="kani-serialize", timeout=900)],
         explanation="see level_text",
     ),
 }
